@@ -29,7 +29,7 @@ PROPS['C13'] = dict(
 
 PROPS['C02'] = dict(
     units=[dict(target=T('h_eval', parts=4), quick=dict(scale=1.0), thorough=dict(scale=6.0, shards=16))],
-    rule=('random splines (grid 2..10 points incl. far-from-origin and strongly non-uniform, every window kind, order 0..6, Q / float / double / long double) x '
+    rule=('random splines (grid 2..10 points incl. far-from-origin and strongly non-uniform, every window kind, order 0..6 and 10, Q / float / double / long double) x '
           'abscissae: every grid point, one generated interior point per grid interval, both support ends and points 1/1000 inside/outside them, points outside the grid, '
           'far outside, and (floats) one ulp either side of every grid point. Oracle: linear scan + exact power-sum value in the absolute basis; at a shared grid point either '
           'adjacent piece; outside the closed support exactly 0; front/back = support ends, throw when empty. Every case counts as non-trivial (it evaluates at all grid points and both ends); distinct = distinct case text.'),
@@ -125,8 +125,8 @@ def fuzz_unit(focus_mask, quick_runs, thorough_runs, thorough_jobs=16):
             res.extra.setdefault('build_failures', []).append(bl)
             return
         HERE, BUILD, REPLAYS, SEED = env['HERE'], env['BUILD'], env['REPLAYS'], env['SEED']
-        jobs = 1 if tier == 'quick' else thorough_jobs
-        runs = quick_runs if tier == 'quick' else thorough_runs
+        jobs = 4 if tier == 'quick' else thorough_jobs
+        runs = quick_runs // 4 if tier == 'quick' else thorough_runs
         work = _os.path.join(BUILD, 'fuzzwork-%d-%d' % (_os.getpid(), focus_mask))
         _shutil.rmtree(work, ignore_errors=True)
         _os.makedirs(work)
